@@ -2,6 +2,7 @@ import GormModel.Drv.Util
 import GormModel.Model.Heap
 import GormModel.Model.ClauseMap
 import GormModel.Model.SessionWrites
+import GormModel.Model.ArgUse
 open Lean
 open Gorm.Heap
 namespace HC06
@@ -107,6 +108,19 @@ def handleC06 (op : String) (args : Array Json) : Option Json := do
     match Gorm.ClauseMap.queryRounds Gorm.ClauseMap.fromRestore gens k caller with
     | none => some (Json.str "unknown")
     | some a => some (Json.mkObj [("during", natJ (Gorm.ClauseMap.buildFrom a gens).length), ("after", natJ a.length)])
+  | "c06.arguse" =>
+    -- ["c06.arguse", site (joins|addvar|group), [kinds of the argument's WHERE elements], pending scopes, qc (0 = none)]
+    -- → which parts of the ARGUMENT the model says change, exposed-slot writes, and the site's regenerated discipline
+    let site ← jStr? (arg args 1)
+    let kinds ← natList? (arg args 2)
+    let nsc ← jNat? (arg args 3)
+    let qc ← jNat? (arg args 4)
+    let r := Gorm.ArgUse.tieRun site kinds nsc (if qc = 0 then none else some qc)
+    let sc := if site == "joins" then Gorm.ArgUse.joinsCfg else if site == "addvar" then Gorm.ArgUse.addVarCfg else Gorm.ArgUse.groupCfg
+    some (Json.mkObj [("changed", strListJ r.1), ("writes", natJ r.2), ("safe", Json.bool sc.safe)])
+  | "c06.argsites" =>
+    some (Json.arr (Gorm.Gen.argSites.map (fun s => Json.mkObj [("file", Json.str s.file), ("fn", Json.str s.fn),
+      ("writes", strListJ ((Gorm.ArgUse.siteWrites s).map (fun e => e.kind ++ ":" ++ e.what)))])).toArray)
   | "c06.cfg" =>
     some (Json.str (toString (repr genAll)))
   | _ => none
